@@ -80,6 +80,25 @@ def run(tier, seed, replay=None):
         nev += tc.report(chk, "C08", validated)
         for s, ev, rc, depth, tags, res in validated[:2]:
             chk.sample({"scenario": s["name"], "script": s["script"], "events": len(ev), "final_ids": [c["id"] for c in ev[-2]["cells"]] if len(ev) > 2 and "cells" in ev[-2] else None})
+    # ---- couplings in a population of 65538 cells (list positions beyond 16 bits), both coupling models
+    if not replay:
+        for variant in ("m1d0", "m2d0"):
+            bdir = vlib.build(variant, ["contact_driver"])
+            bp = os.path.join(work, "bigpop_%s.ndjson" % variant)
+            rc, out = vlib.run([os.path.join(bdir, "contact_driver"), "bigpop", bp], timeout=900)
+            brow = vlib.read_ndjson(bp) if os.path.exists(bp) else []
+            if rc != 0 or not brow:
+                chk.violation("crash:bigpop:%s" % variant, "the contact phase of %s crashed on a population of 65538 cells (status %d)" % (variant, rc), {"variant": variant})
+                continue
+            nb, bbad = vlib.tlc_validate_records(tc.SPEC, "BigPopTrace", "BigPopTrace.cfg", brow, chunk=5, par=1, workers=1)
+            chk.cov["states"] += nb
+            chk.cov["transitions"] += nb
+            if "P_BigNotVacuous" in bbad and "P_BigCouplingValid" not in bbad:
+                raise ModelError("bigpop is vacuous: %r" % brow[0])
+            if "P_BigCouplingValid" in bbad:
+                chk.violation("impl:C08_CouplingValid:bigpop:%s" % variant, "population of %d cells, contact model %d: %d of %d stored couplings do not designate a live node of the touching cell" % (
+                    brow[0]["ncells"], brow[0]["model"], brow[0]["bad"], brow[0]["ncoupl"]), {"variant": variant, "big_record": brow[0]})
+            chk.cov.setdefault("big_population", {})[variant] = brow[0]
     # ---- the identifier discipline for populations of ANY size: spec/Tissue/IdAlloc, proved with the TLA+ proof system (IndInv is
     # inductive, a division hands out ids nobody ever carried); the TLC run above checks that Tissue refines it (RefinesIdAlloc)
     if not replay:
